@@ -85,6 +85,12 @@ pub fn hist_check(ctx: &CheckCtx, hp: &HistProp) -> Option<Found> {
             }
         }
     }
+    // the same generators and oracle once more in the build without overflow checks and debug assertions (see ship.rs)
+    if !crate::ship::is_child() {
+        if let Some(f) = crate::ship::check(ctx, "a quarter of the history cases of every profile re-run in a build of harness + calloop with overflow-checks = false, debug-assertions = false") {
+            return Some(f);
+        }
+    }
     if ctx.tier == Tier::Thorough {
         // coverage-guided campaign over the same generators and the same oracle
         let hp_static = by_id(hp.id)?;
@@ -93,6 +99,40 @@ pub fn hist_check(ctx: &CheckCtx, hp: &HistProp) -> Option<Found> {
         }
     }
     None
+}
+
+
+/// Child side of the ship-profile sub-check of a history property (see ship.rs): the profile searches at a quarter of
+/// their size, or the replay of one case.
+pub fn ship_child(ctx: &CheckCtx, hp: &HistProp) -> i32 {
+    if let Err(e) = crate::ship::child_profile_ok() {
+        crate::ship::child_error(&e);
+        return 2;
+    }
+    let mut found: Option<Found> = None;
+    if let Some((sub, case)) = crate::ship::child_replay_request() {
+        match hist_replay(hp, case.clone()) {
+            Ok(Some(v)) => found = Some(Found { sub, violation: v, case, replay_path: None }),
+            Ok(None) => {}
+            Err(e) => {
+                crate::ship::child_error(&format!("bad replay case: {e}"));
+                return 2;
+            }
+        }
+    } else {
+        for (name, profile, q, t) in (hp.profiles)() {
+            let cases = match ctx.tier {
+                Tier::Quick => q / 4,
+                Tier::Thorough => t / 4,
+            };
+            if let Some(f) = ctx.search_with(name, || case_strategy(&profile), cases.max(1), hp.workers, None, |c| run_case_for(hp, c)) {
+                found = Some(f);
+                break;
+            }
+        }
+    }
+    crate::ship::child_report(ctx, found);
+    0
 }
 
 pub fn by_id(id: &str) -> Option<&'static HistProp> {
